@@ -508,7 +508,7 @@ void suite_rsmat(int tier) {
 /* ======================================================================= xor (C05) */
 #include "xor_golden.h"
 /* parity j of the stripe is the XOR of the data payloads its fixed (golden) equation names */
-static void xor_fixed_equations(stripe_t *s) {
+void xor_fixed_equations(stripe_t *s) {
     cfg_t c = s->c; size_t bs = s->flen - HDR;
     for (int g = 0; g < N_XOR_GOLDEN; g++) {
         if (XOR_GOLDEN[g].hd != c.hd || XOR_GOLDEN[g].m != c.m || XOR_GOLDEN[g].k != c.k) continue;
